@@ -14,7 +14,7 @@ PROP = "C01"
 LEVEL = "exploration"
 VARIANTS = ("omp",)
 EXCEPTION_IS_VIOLATION = True  # "the generated displacement set is always sufficient" is part of the claim
-CASE_TIMEOUT = 240
+CASE_TIMEOUT = 1200
 RULE = ("cases = crystal zoo x supercell matrix (diagonal, non-diagonal, centring type) x primitive matrix (none|centring|auto) "
         "x is_plusminus(auto|True|False) x is_diagonal x distance x full/compact x is_symmetry x model(pair|projected); "
         "non-trivial = model has max|Phi|>0 and at least one non-zero block between different atoms; "
@@ -32,7 +32,7 @@ def gen_cases(tier, seed):
 
     rng = np.random.default_rng([seed, 1])
     max_atoms = 64 if tier == "quick" else 128
-    per_crystal = 10 if tier == "quick" else 60
+    per_crystal = 10 if tier == "quick" else 160
     names = crystals.ZOO + crystals.MAGNETIC
     cases = []
     for name in names:
